@@ -84,8 +84,8 @@ fn gen_accept_header(rng: &mut Rng) -> Option<(Vec<u8>, Vec<String>)> {
 
 pub fn run(cfg: &RunCfg) -> Ctx {
     let mut all = Ctx::new();
-    all.merge(par_cases(cfg, "server", cfg.n(20_000, 16 * 40_000), || (), |_, rng, ctx, i| server_case(rng, ctx, i)));
-    all.merge(par_cases(cfg, "client", cfg.n(12_000, 16 * 20_000), || (), |_, rng, ctx, i| client_case(rng, ctx, i)));
+    all.merge(par_cases(cfg, "server", cfg.n(20_000, 16 * 800_000), || (), |_, rng, ctx, i| server_case(rng, ctx, i)));
+    all.merge(par_cases(cfg, "client", cfg.n(12_000, 16 * 400_000), || (), |_, rng, ctx, i| client_case(rng, ctx, i)));
     let pairs: Vec<String> = all.counters.keys().filter(|k| k.starts_with("cfgpair.")).cloned().collect();
     for k in &pairs {
         all.counters.remove(k);
